@@ -252,6 +252,7 @@ def replay(ctx, payload):
 
 
 if __name__ == "__main__":
+    import gentie
     setup_repo_path()
     sys_suites = syscheck.make_suites("C17", [("C17", 260, 8000), ("any", 60, 2000)],
         "random scenarios with client scripts of valid/invalid requests, bursts beyond the queue size, "
@@ -265,7 +266,7 @@ if __name__ == "__main__":
                            "Pamiq.WebQ.status_paused", "Pamiq.WebQ.status_pausing", "Pamiq.WebQ.status_resuming",
                            "Pamiq.WebQ.status_active", "Pamiq.WebQ.status_shutting_down",
                            "Pamiq.WebQ.reader_truthful_partial", "Pamiq.WebQ.reader_can_report_state_that_never_held"],
-        suites=[suite_table, suite_status_walk, suite_queue, *sys_suites],
+        suites=[gentie.suite_for("C17"), suite_table, suite_status_walk, suite_queue, *sys_suites],
         search=syscheck.make_search("C17", ["C17"]), replay=replay,
         assumptions=syscheck.PROTO_ASSUMPTIONS + [
             "Starlette routing is exercised in-process at the ASGI interface (no sockets, no uvicorn); "
